@@ -58,7 +58,9 @@ def _case(rng, kind, sizes, nrounds=3):
        'noise': rng.random() < 0.8, 'mu': 0.0, 'slr': 1.0, 'coef': 0.5,
        # L2 regularizer weight where the algorithm's API takes one (fed_prox does not); 0 = regularizer=None
        'reg': 0.0 if kind in ('fedprox0', 'fedprox') or rng.random() < 0.4 else rng.choice([0.125, 0.25, 0.5]),
-       'init': [rng.randint(-4, 4) / 4 for _ in range(fs.D)], 'pop': pop, 'rounds': rounds}
+       'init': [rng.randint(-4, 4) / 4 for _ in range(fs.D)], 'pop': pop, 'rounds': rounds,
+       'forms': fs.gen_forms(rng) if rng.random() < 0.4 else dict(fs.FORMS0),
+       'xdtype': 'float16' if rng.random() < 0.08 else 'float32', 'backend': 'jit', 'fresh': False}
   if kind == 'fedprox':
     c['mu'] = rng.choice([0.25, 0.5, 1.0])
   if kind in ('mimelite1', 'mime1'):
@@ -77,7 +79,7 @@ def _case(rng, kind, sizes, nrounds=3):
 
 
 def generate(tier, rng):
-  reps = {'quick': 8, 'thorough': 60, 'search': 100}[tier]
+  reps = {'quick': 5, 'thorough': 56, 'search': 100}[tier]
   again = []
   # Every algorithm instance of the process is built from the SAME per_example_loss / grad function objects
   # (fedsim.per_example_loss, fedsim.shared_grad).  Hidden module-level or closure state keyed on them would leak
@@ -95,6 +97,21 @@ def generate(tier, rng):
           c['slr'] = v
         yield c
         again.append(c)
+  # WAVE3 item 2 (seeded C12-t2): batching seed 0 is a valid seed, not "unset": clients with several batches per epoch so
+  # that the shuffle order matters; items 1 / 7: delivery forms, debug backend and the jit backend under disable_jit
+  for j, kind in enumerate(KINDS):
+    c = _case(rng, kind, [7, 5, 9])
+    c['hp'] = _hp((2, None, 1, False) if kind == 'mime1' else (2, 2, None, False), 0)
+    c['rounds'] = [[['0', 0], ['1', 1], ['2', 2]], [['2', 3], ['0', 0]], [['1', 5], ['0', 7], ['2', 0]]]
+    c['forms'] = {'clients': ['tuple', 'list'][j % 2], 'ids': ['int', 'str', 'bytes'][j % 3], 'init': ['numpy', 'jax'][j % 2], 'key': ['numpy', 'jax'][(j // 2) % 2]}
+    c['fresh'] = j % 4 == 0
+    yield c
+  for j, kind in enumerate(('fedprox0', 'hypcluster', 'mime1', 'apfl', 'mimelite1')):
+    c = _case(rng, kind, [3, 2])
+    c['rounds'] = [[['0', 0], ['1', 1]], [['1', 2]]]
+    c['hp'] = _hp((2, None, 1, False) if kind == 'mime1' else (2, 1, None, False), 0)
+    c['backend'] = ['debug', 'nojit'][j % 2]
+    yield c
   # corners: a round without examples in the middle of a run, a round without clients, per kind
   for kind in KINDS:
     c = _case(rng, kind, [3, 0, 0, 4])
@@ -113,10 +130,11 @@ def generate(tier, rng):
       sizes = rng.choice(SIZES) if rng.random() < 0.6 else [rng.randint(0, 9) for _ in range(rng.randint(1, 6))]
       yield _case(rng, kind, sizes)
   # the first-built algorithm objects again, after all the others exist (run on fresh populations)
-  for c in again[:12]:
+  for c in again[:8]:
     c2 = _case(rng, c['kind'], [4, 1, 3])
     for k in ('copt', 'sopt', 'hp', 'noise', 'mu', 'slr', 'coef', 'reg', 'kind'):
       c2[k] = c[k]
+    c2['forms'], c2['xdtype'], c2['backend'] = dict(fs.FORMS0), 'float32', 'jit'
     yield c2
 
 
@@ -215,15 +233,27 @@ def _dataset_ws(data, ws):
       'i': np.arange(n, dtype=np.int32), 'ws': np.tile(np.asarray(ws, dtype=np.float32)[None, :], (n, 1)).reshape(n, fs.D)})
 
 
+def _build(case, which):
+  from fedjax.core import for_each_client as fec
+  backend = {'nojit': 'jit'}.get(case.get('backend', 'jit'), case.get('backend', 'jit'))
+  with fec.for_each_client_backend(backend):
+    return _algo_a(case) if which == 'a' else _algo_b(case)
+
+
 def run(case):
+  """A (the algorithm) and B (its real FedAvg counterpart) are stepped ALTERNATELY, round by round, in one process
+  and from the same loss / grad function objects."""
+  import contextlib
   import jax
-  import jax.numpy as jnp
   kind = case['kind']
-  cfg = [case[k] for k in ('kind', 'copt', 'sopt', 'hp', 'noise', 'mu', 'slr', 'coef')] + [case.get('reg', 0.0)]
-  alg_a = _cached(['a'] + cfg, lambda: _algo_a(case))
-  alg_b = _cached(['b'] + cfg, lambda: _algo_b(case))
-  cds = {c: fs.client_dataset(d) for c, d in case['pop'].items()}
-  obs = {'err_a': None, 'err_b': None, 'a': [], 'b': [] if alg_b is not None else None, 'a_trace': []}
+  forms = case.get('forms', fs.FORMS0)
+  backend = case.get('backend', 'jit')
+  cfg = [case[k] for k in ('kind', 'copt', 'sopt', 'hp', 'noise', 'mu', 'slr', 'coef')] + [case.get('reg', 0.0), backend != 'debug']
+  alg_a = _cached(['a'] + cfg, lambda: _build(case, 'a'))
+  alg_b = _cached(['b'] + cfg, lambda: _build(case, 'b'))
+  cds = {c: fs.client_dataset(d, case.get('xdtype', 'float32')) for c, d in case['pop'].items()}
+  obs = {'err_a': None, 'err_b': None, 'a': [], 'b': [] if alg_b is not None else None, 'a_trace': [],
+         'reinit': None, 'fresh': None, 'caller': []}
   obs['streams'] = {c: fs.record_stream(cds[c], case['hp']) for c in sorted(cds)}
   obs['gstreams'] = {c: [[int(i) for i, m in zip(b['i'], b['__mask__']) if m] for b in cds[c].padded_batch(_padded_hp())]
                      for c in sorted(cds)}
@@ -231,34 +261,89 @@ def run(case):
   nsteps = {c: max(len(obs['streams'][c]), len(obs['gstreams'][c])) for c in cds}
   obs['nus'] = [[fs.nu_stream(s, nsteps[c], path) if case['noise'] else [0.0] * nsteps[c] for c, s in rnd]
                 for rnd in case['rounds']]
-  w0 = {'w': jnp.asarray(case['init'], dtype=jnp.float32)}
+  watch = fs.CallerData()
+  for c, d in cds.items():
+    for f, a in d.raw_examples.items():
+      watch.watch(f'dataset {c}.{f}', a)
+
+  def ctx():
+    return jax.disable_jit() if backend == 'nojit' else contextlib.nullcontext()
+
+  def clients_a(rnd, w=None):
+    cl = [(fs.cid_form(c, forms['ids']), cds[c], fs.make_key(s, forms['key'])) for c, s in rnd]
+    cl = tuple(cl) if forms['clients'] == 'tuple' else cl
+    if w is not None:
+      w.watch_clients('clients', cl)
+      for cid, _, k in cl:
+        w.watch(f'key of {cid!r}', k)
+    return cl
+
+  def init_a(alg):
+    w0 = fs.make_params(case['init'], forms['init'])
+    return alg.init([w0] if kind == 'hypcluster' else w0)
+
+  def step_a(alg, state, rnd, w=None):
+    with ctx():
+      state, _ = alg.apply(state, clients_a(rnd, w))
+    return state
+
+  def step_b(state, rnd):
+    if kind == 'hypcluster':      # the key HypCluster trains with: jax.random.split(rng)[1]
+      keys = [jax.random.split(jax.random.PRNGKey(s))[1] for _, s in rnd]
+    else:
+      keys = [jax.random.PRNGKey(s) for _, s in rnd]
+    if kind == 'fedprox':         # the penalty pulls toward THIS round's server params
+      ws = fs.flat(state.params)
+      data = {c: _dataset_ws(case['pop'][c], ws) for c, _ in rnd}
+    else:
+      data = cds
+    with ctx():
+      state, _ = alg_b.apply(state, [(fs.cid_bytes(c), data[c], k) for (c, _), k in zip(rnd, keys)])
+    return state
+
+  sa = sb = None
+  kept = []
   try:
-    state = alg_a.init([w0] if kind == 'hypcluster' else w0)
-    for rnd in case['rounds']:
-      clients = [(fs.cid_bytes(c), cds[c], jax.random.PRNGKey(s)) for c, s in rnd]
-      state, _ = alg_a.apply(state, clients)
-      obs['a'].append(_params_of(kind, state))
-      obs['a_trace'].append(fs.trace_of(state.opt_states[0] if kind == 'hypcluster' else state.opt_state))
+    sa = init_a(alg_a)
   except Exception as ex:
     obs['err_a'] = fs.err_name(ex)
   if alg_b is not None:
     try:
-      state = alg_b.init(w0)
-      for rnd in case['rounds']:
-        if kind == 'hypcluster':      # the key HypCluster trains with: jax.random.split(rng)[1]
-          keys = [jax.random.split(jax.random.PRNGKey(s))[1] for _, s in rnd]
-        else:
-          keys = [jax.random.PRNGKey(s) for _, s in rnd]
-        if kind == 'fedprox':         # the penalty pulls toward THIS round's server params
-          ws = fs.flat(state.params)
-          data = {c: _dataset_ws(case['pop'][c], ws) for c, _ in rnd}
-        else:
-          data = cds
-        clients = [(fs.cid_bytes(c), data[c], k) for (c, _), k in zip(rnd, keys)]
-        state, _ = alg_b.apply(state, clients)
-        obs['b'].append(fs.flat(state.params))
+      sb = alg_b.init(fs.make_params(case['init'], 'jax'))
     except Exception as ex:
       obs['err_b'] = fs.err_name(ex)
+  for rnd in case['rounds']:
+    if obs['err_a'] is None:
+      try:
+        watch.watch('input params', (sa.cluster_params[0] if kind == 'hypcluster' else sa.params)['w'])
+        sa = step_a(alg_a, sa, rnd, watch)
+        obs['a'].append(_params_of(kind, sa))
+        obs['a_trace'].append(fs.trace_of(sa.opt_states[0] if kind == 'hypcluster' else sa.opt_state))
+        kept.append((sa, obs['a'][-1]))
+      except Exception as ex:
+        obs['err_a'] = fs.err_name(ex)
+    if alg_b is not None and obs['err_b'] is None:
+      try:
+        sb = step_b(sb, rnd)
+        obs['b'].append(fs.flat(sb.params))
+      except Exception as ex:
+        obs['err_b'] = fs.err_name(ex)
+  if obs['err_a'] is None:
+    try:
+      # init() again on the same object, and (flagged cases) a freshly built object: round 0 must repeat
+      obs['reinit'] = _params_of(kind, step_a(alg_a, init_a(alg_a), case['rounds'][0]))
+      if case.get('fresh'):
+        alg2 = _build(case, 'a')
+        obs['fresh'] = _params_of(kind, step_a(alg2, init_a(alg2), case['rounds'][0]))
+      for r, (st, params) in enumerate(kept):
+        try:
+          if _params_of(kind, st) != params:
+            obs['caller'].append(f'state returned by round {r} changed after later calls')
+        except Exception as ex:
+          obs['caller'].append(f'state returned by round {r} unusable: {type(ex).__name__}')
+      obs['caller'] += watch.check()
+    except Exception as ex:
+      obs['err_a'] = fs.err_name(ex)
   return obs
 
 
@@ -304,6 +389,11 @@ def oracle(case, obs):
     return [(f'fedavg-raised:{obs["err_b"]}', f'the FedAvg counterpart of {kind} raised {obs["err_b"]}')]
   if any(not fs.finite(p) for p in obs['a']):
     return [(f'{kind}-non-finite', f'{kind}: non-finite server params {obs["a"]}')]
+  for what in obs.get('caller', []):
+    out.append((f'{kind}-caller-data', what))
+  for k in ('reinit', 'fresh'):
+    if obs['a'] and (k == 'reinit' or case.get('fresh')) and (obs.get(k) is None or not fs.close(obs[k], obs['a'][0], 1e-7)):
+      out.append((f'{kind}-{k}-differs', f'round 0 repeated from init() {"on a freshly built object" if k == "fresh" else "called again"}: {obs.get(k)} vs {obs["a"][0]}'))
   if obs['b'] is not None:
     tot = [sum(len(case['pop'][c]['y']) for c, _ in rnd) for rnd in case['rounds']]
     ref = _ref_fedavg_chain(case, obs, case['mu'] if kind == 'fedprox' else None)
@@ -371,7 +461,9 @@ def describe(case, obs):
           'server_opt': 'sgd' + ('+mom' if case['sopt'].get('mom') else '') + ('+nest' if case['sopt'].get('nest') else ''),
           'batching': f'bs={case["hp"]["bs"]},ep={case["hp"]["epochs"]},st={case["hp"]["steps"]},drop={case["hp"]["drop"]}',
           'empty_rounds': sum(1 for t in tot if t == 0), 'key_dependent_loss': case['noise'],
-          'regularizer': 'none' if not case.get('reg') else 'l2',
+          'regularizer': 'none' if not case.get('reg') else 'l2', 'backend': case.get('backend', 'jit'),
+          'forms': '/'.join(case.get('forms', fs.FORMS0)[k] for k in ('clients', 'ids', 'init', 'key')),
+          'xdtype': case.get('xdtype', 'float32'), 'hparams_seed0': case['hp']['seed'] == 0,
           'err': obs['err_a'] or obs['err_b']}
 
 
